@@ -80,6 +80,14 @@ def mutations(path, ops=None):
                     and '(' in s and s.count('(') == s.count(')') and s.count('{') == s.count('}') and 'panic!' not in s and 'debug_assert' not in s:
                 ind = l[:len(l) - len(l.lstrip())]
                 yield i, 'guard', '%sif !::std::thread::panicking() { %s }' % (ind, s)
+    if ops is not None and 'cmpstate' in ops:
+        for i, l in code:
+            m = re.search(r'([=!]=\s*)QueueState::(\w+)', l.split('//')[0])
+            if m:
+                for v in STATES:
+                    if v != m.group(2):
+                        yield i, 'cmp=%s' % v, l.replace('QueueState::' + m.group(2), 'QueueState::' + v, 1)
+                yield i, 'cmp-flip', l.replace(m.group(1), ('!= ' if m.group(1).startswith('=') else '== '), 1)
     if ops is not None and 'dup' in ops:
         for i, l in code:
             s_ = l.strip()
@@ -323,6 +331,8 @@ def test_one(job):
         fam = {'earlyret'}
     elif job['op'].startswith('noop'):
         fam = {'noopwaker'}
+    elif job['op'].startswith('cmp'):
+        fam = {'cmpstate'}
     cand = [(i, op, nw) for (i, op, nw) in mutations(path, fam) if i == idx and op == job['op']]
     if not cand:
         job['tests'] = 'lost'
